@@ -138,6 +138,9 @@ def main(argv):
 
     rnd = random.Random(seed)
     samples = acc.samples if len(acc.samples) <= 6 else rnd.sample(acc.samples, 6)
+    if not samples:       # e.g. every case raised: show the first violating case(s) instead of nothing
+        samples = [{"first_case_of_violation_class": k, "case": v[1]} for k, v in list(acc.viol.items())[:3]] or \
+                  [{"note": "the check recorded no sample case", "bounds": jsonable(mod.bounds(tier))}]
     cov = {
         "evaluations": acc.evaluations,
         "cases": acc.cases,
